@@ -1392,12 +1392,6 @@ func (c *cluster) markResizeInstructionComplete(complete *ResizeInstructionCompl
 		return fmt.Errorf("resize job %d does not exist", complete.JobID)
 	}
 
-	// Abort the job if an error exists in the complete object.
-	if complete.Error != "" {
-		j.result <- resizeJobStateAborted
-		return errors.New(complete.Error)
-	}
-
 	j.mu.Lock()
 	defer j.mu.Unlock()
 
@@ -1405,11 +1399,17 @@ func (c *cluster) markResizeInstructionComplete(complete *ResizeInstructionCompl
 		return fmt.Errorf("resize job %d is no longer running", j.ID)
 	}
 
+	// Abort the job if an error exists in the complete object.
+	if complete.Error != "" {
+		j.sendResult(resizeJobStateAborted)
+		return errors.New(complete.Error)
+	}
+
 	// Mark host complete.
 	j.IDs[complete.Node.ID] = true
 
 	if !j.nodesArePending() {
-		j.result <- resizeJobStateDone
+		j.sendResult(resizeJobStateDone)
 	}
 
 	return nil
@@ -1465,8 +1465,20 @@ func newResizeJob(existingNodes []*Node, node *Node, action string) *resizeJob {
 		ID:     rand.Int63(),
 		IDs:    ids,
 		action: action,
-		result: make(chan string),
+		result: make(chan string, 1),
 		Logger: logger.NopLogger,
+	}
+}
+
+// sendResult reports the outcome of the job to the goroutine waiting in
+// handleNodeAction. Only the first outcome counts: the channel holds one
+// value and a sender never blocks, so completion messages that arrive after
+// the outcome has been decided (duplicates, late errors) cannot stall their
+// handler.
+func (j *resizeJob) sendResult(state string) {
+	select {
+	case j.result <- state:
+	default:
 	}
 }
 
@@ -1487,14 +1499,14 @@ func (j *resizeJob) run() error {
 	// Job can be considered done in the case where it doesn't require any action.
 	if !j.nodesArePending() {
 		j.Logger.Printf("resizeJob contains no pending tasks; mark as done")
-		j.result <- resizeJobStateDone
+		j.sendResult(resizeJobStateDone)
 		return nil
 	}
 
 	j.Logger.Printf("distribute tasks for resizeJob")
 	err := j.distributeResizeInstructions()
 	if err != nil {
-		j.result <- resizeJobStateAborted
+		j.sendResult(resizeJobStateAborted)
 		return errors.Wrap(err, "distributing instructions")
 	}
 	return nil
